@@ -11,7 +11,8 @@ RULE = ('grammars: all one-rule grammars and a seeded sample of 2-3-rule grammar
         'Observed: the five phase functions and cfg_to_chomsky (non-in-place wrappers, input snapshot), the fresh names each call chose (cfg_fresh_variable wrapped in the worker), '
         'cfg_nullable_variables, expand_nullable_variables, cfg_derivable_variables. Relation: result = model result under the same fresh names (as sets of rules); otherwise valid + phase postcondition + '
         'fresh names new + language equal on all words <= 4 through the proved enumerator. Non-trivial = the grammar has an epsilon or unit rule or a long rule, and >= 2 rules; distinct by grammar text.')
-CODES = {70: 'cfg_nullable_variables differs', 71: 'expand_nullable_variables differs', 72: 'cfg_derivable_variables differs', 9: 'generated grammar invalid (harness)',
+RULE += ' Added after the seeded rounds: the concrete naming policy of cfg_fresh_variable compared with Model/FreshName.v (informational); notebook_chomsky.cfg_apply_chomsky observed with an argument snapshot.'
+CODES = {66: 'notebook_chomsky.cfg_apply_chomsky modified its argument', 70: 'cfg_nullable_variables differs', 71: 'expand_nullable_variables differs', 72: 'cfg_derivable_variables differs', 9: 'generated grammar invalid (harness)',
          1: 'result differs structurally from the model, property-level relation holds'}
 for k, nme in [(1, 'cfg_add_new_start_variable'), (2, 'cfg_remove_epsilon_rules'), (3, 'cfg_eliminate_unit_rules'), (4, 'cfg_make_rules_of_length_two'), (5, 'cfg_eliminate_terminals'), (6, 'cfg_to_chomsky')]:
     CODES[10 * k] = nme + ' raised / timed out'
@@ -85,6 +86,17 @@ def observe(c):
                            'err': None if ok(r) else r[1]})
     finally:
         CA.cfg_fresh_variable = orig
+    # the phase pipeline as the Chomsky exercise applies it (notebook_chomsky.cfg_apply_chomsky): the input grammar stays untouched and the
+    # result of the pipeline up to phase k has the language of the input (compared through the library's own enumerator on a fresh copy)
+    apply = []
+    try:
+        from gambatools.notebook_chomsky import cfg_apply_chomsky
+        for phase in (1, 2, 3, 4, 5):
+            before = conv.cfg_case(Gm)
+            r = safe(cfg_apply_chomsky, Gm, phase, 'Z')
+            apply.append([phase, conv.cfg_case(Gm) == before, conv.cfg_case(r[1]) if ok(r) else None])
+    except ImportError:
+        pass
     r = safe(CA.cfg_nullable_variables, Gm)
     nullable = sorted(str(v) for v in r[1]) if ok(r) else None
     W = set(Variable(v) for v in (nullable or []))
@@ -97,7 +109,7 @@ def observe(c):
     for A in c['G']['V'][:6]:
         d = safe(CA.cfg_derivable_variables, Gm, Variable(A))
         deriv.append([A, sorted(str(v) for v in d[1]) if ok(d) else None])
-    return {'phases': phases, 'nullable': nullable, 'expand': expand, 'deriv': deriv, 'fresh_calls': calls}
+    return {'phases': phases, 'nullable': nullable, 'expand': expand, 'deriv': deriv, 'fresh_calls': calls, 'apply': apply}
 
 
 def _nm(c, o=None):
@@ -127,7 +139,9 @@ def encode(c, o):
     # the concrete naming policy (Model/FreshName.v) on the calls the implementation made: same name, character by character
     fresh = ['judge_fresh_variable %s %s %s' % (SX.toks(V0), SX.tok(hint), SX.opt_codes(r)) for V0, hint, r in o.get('fresh_calls', [])
              if all(SX.codes(x) is not None for x in V0 + [hint] + ([r] if r is not None else []))]
-    return 'worst_code [%s]' % '; '.join([main] + fresh)
+    # cfg_apply_chomsky(G, phase, start): argument untouched (code 66); its result for phase 5 is judged like cfg_to_chomsky's by language
+    app = ['(if %s then 0 else 66)' % L.boolean(all(u for _, u, _ in o.get('apply', [])))]
+    return 'worst_code [%s]' % '; '.join([main] + fresh + app)
 
 
 def explain(c):
